@@ -147,8 +147,15 @@ func Main() (retcode int) { //nolint:funlen // we do have quite a lot of flags a
 		return repl.Interactive(options)
 	}
 	options.All = true
-	s := eval.NewState()
-	s.NoReg = *noRegister
+	newState := func() *eval.State { // with the options that live in the state itself.
+		st := eval.NewState()
+		st.NoReg = options.NoReg
+		if options.MaxDepth > 0 {
+			st.MaxDepth = options.MaxDepth
+		}
+		return st
+	}
+	s := newState()
 	if options.ShebangMode {
 		script := flag.Arg(0)
 		// remaining := flag.Args()[1:] // actually let's also pass the name of the script as arg[0]
@@ -188,7 +195,7 @@ func Main() (retcode int) { //nolint:funlen // we do have quite a lot of flags a
 			return ret // already logged errors.
 		}
 		if !*sharedState {
-			ns := eval.NewState()
+			ns := newState()
 			ns.Out = s.Out
 			ns.LogOut = s.LogOut
 			s = ns
